@@ -172,4 +172,32 @@ PROPS = {
                  expect_probes=["reannounce_live", "registered_early", "disconnect_while_awaiting", "timer_fire"]),
     "C11": _spec("proto", _GEN + "Class module always loaded, 0-6 rules with case-mixed names and all criteria kinds. Non-trivial = at least one acceptance evaluated against a non-empty rule table.",
                  3000, 250000, {"fault_free_every": 8, "modules": "class", "p_reply": 0.9}),
+    "C04": _spec("stray", "Each evaluation is a pair of runs: a generated history with id reuse (A) and the same history with ONE stray reply/unlinked "
+                 "line inserted at a random position (B): stale tag of a departed instance whose id is live again / free, syntactically broken tag, "
+                 "unknown service, service that already answered or was never queried, too few parameters; all reply kinds. Oracle: B's output is "
+                 "empty at the stray step and byte-identical to A's at every other step through the final stats. Non-trivial = the stray line "
+                 "resolved and the model classifies it as 'must be ignored' (pairs where it would be a genuine reply are skipped and counted).",
+                 700, 60000, {}, quick_s=80),
+    "C07": _spec("interleave", "Each evaluation: 2-6 client conversations (each generated online in a solo run, with its own service replies and, "
+                 "when timeouts are on, its own expiry point) on distinct ids, merged under two seeded interleavings that preserve each client's "
+                 "order (30% of quick and all thorough evaluations also against the solo runs). Oracle: every client's projection (its events -> "
+                 "sorted lines naming it or its tag, tag normalised) is identical in all schedules, and no step about one client prints anything "
+                 "about another. Non-trivial = >=2 conversations, two different schedules, at least one verdict.",
+                 500, 40000, {}, quick_s=80),
+    "C08": _spec("bytes", "Three modes per run: robust (mutated/random byte streams from a recorded valid session, random read boundaries incl. >4096 "
+                 "pending, EINTR/EAGAIN on reads, EOF at an arbitrary byte; oracle: no sanitizer report/signal/hang, exit 0, teardown), indiff (A line "
+                 "per read vs B same bytes segmented+CRLF+read faults vs C junk interleaved; oracle: outputs equal, junk prints only notices), prefix "
+                 "(every prefix of a short stream then EOF). Non-trivial = the daemon produced protocol output beyond the banner.",
+                 1200, 100000, {}, quick_s=80),
+    "C14": _spec("conf", "Each run: 1-6 settings registered with logging hooks (before the first load or later), 2-6 valid files over a small name/type "
+                 "universe rendered in varied layouts, and after most of them damaged loads: truncation at a random byte (thorough: every byte of sampled "
+                 "files), 1-4 byte flips, slice deletion/duplication, random bytes, empty file, missing file, failing fread - always on top of a live "
+                 "configuration. Oracle: the load returns, ASan clean; if it reported an error the dump of the live tree is identical before/after and no "
+                 "hook ran. Non-trivial = at least one damaged load was rejected and compared.",
+                 1500, 100000, {"every_cut": True}, quick_s=80),
+    "C15": _spec("conf", "Each run: 2-6 valid files (values of all four node kinds, nested objects, names changing kind between files, identical reloads), "
+                 "registrations before the first load and after the k-th, with and without defaults (NULL default, empty list in the file, case-only "
+                 "differences). Oracle: after every load and registration the dump equals the reference model (file value else default; unregistered "
+                 "leftovers gone), required hooks ran, identical reload notifies nobody, ASan clean. Non-trivial = >=2 loads compared.",
+                 1500, 100000, {}, quick_s=80),
 }
